@@ -71,7 +71,9 @@ ASSUMPTIONS = [
     "device interface, assembly.always_promote_to_double, fmm.dense_evaluation / debug / near_field_representation "
     "(read from GLOBAL_PARAMETERS at every evaluation by design)",
 ]
-RULE = ("one case per API call of a history (<= 8 calls quick, <= 20 thorough); a case is NON-TRIVIAL when it is the "
+RULE = ("one case per API call of a history (random histories of <= 8 calls quick / <= 20 thorough from ctx.rng, plus 4 "
+        "fixed histories of 9-13 calls: the two halves of the FMM finding, a dense/explicit/strong-form one, a two-grid "
+        "mass-matrix one); a case is NON-TRIVIAL when it is the "
         "first use (weak_form / strong_form / mass_matrix / potential construction+evaluation) of an operator and (a) the "
         "parameter object the operator holds was changed between construction and this first use, or (b) it holds an "
         "explicit object whose relevant values differ from the global ones at first use, or (c) an FMM interface cache "
@@ -262,7 +264,7 @@ def gen_history(rng, nops, fmm=True, kerns=(0,), single=True):
             ops.append(("sg", "regular", rng.choice(REG)))
         else:
             ops.append((rng.choice(["wf", "wf", "sf"]), rng.randrange(len(bops))))
-    return ops[:max(nops, len(ops))] if len(ops) <= nops + 2 else ops[:nops + 2]
+    return ops[:nops]
 
 
 FIXED_HISTORIES = [
@@ -397,37 +399,41 @@ class Plan:
         # merge the smallest chunks when there are more chunks than processes allowed at once is fine: they queue
         self.tmp = tempfile.mkdtemp(prefix="c18ref")
         self.queue = []
-        for i, ch in enumerate(chunks):
+        # every chunk with more than one job is also computed by a TWIN interpreter in reversed order: the reference
+        # must not depend on the order in which a reference interpreter happens to work through its jobs
+        twins = [list(reversed(ch)) for ch in chunks if len(ch) > 1]
+        self.n_primary = len(chunks)
+        for i, ch in enumerate(chunks + twins):
             jf = os.path.join(self.tmp, f"jobs{i}.json")
             of = os.path.join(self.tmp, f"out{i}.npz")
             with open(jf, "w") as f:
                 json.dump(ch, f)
-            self.queue.append((jf, of, [j["id"] for j in ch]))
+            self.queue.append((jf, of, [j["id"] for j in ch], i >= len(chunks)))
         self.max_procs = max_procs
         self.running = []
         self.done = []
         self.t_launch = time.time()
         self._pump()
-        ctx.log(f"reference interpreters: {len(jobs)} distinct jobs in {len(chunks)} fresh processes "
-                f"(<= {max_procs} at once)")
+        ctx.log(f"reference interpreters: {len(jobs)} distinct jobs in {len(chunks)} fresh processes + {len(twins)} "
+                f"reversed-order twins (<= {max_procs} at once)")
 
     def _pump(self):
         self.running = [r for r in self.running if not self._finished(r)]
         while self.queue and len(self.running) < self.max_procs:
-            jf, of, ids = self.queue.pop(0)
+            jf, of, ids, twin = self.queue.pop(0)
             env = dict(os.environ)
             env["PYTHONPATH"] = ROOT + os.pathsep + REPO + os.pathsep + env.get("PYTHONPATH", "")
             env["NUMBA_DISABLE_PERFORMANCE_WARNINGS"] = "1"
             p = subprocess.Popen([sys.executable, "-W", "ignore", "-m", "props.c18_ref", jf, of], cwd=ROOT, env=env,
                                  stdout=subprocess.PIPE, stderr=subprocess.STDOUT, text=True)
-            self.running.append((p, of, ids))
+            self.running.append((p, of, ids, twin))
 
     def _finished(self, r):
-        p, of, ids = r
+        p, of, ids, twin = r
         if p.poll() is None:
             return False
         out = p.stdout.read()
-        self.done.append((p.returncode, of, ids, out))
+        self.done.append((p.returncode, of, ids, out, twin))
         return True
 
     def wait(self, ctx, timeout=3000):
@@ -438,25 +444,31 @@ class Plan:
         while self.queue or self.running:
             self._pump()
             if time.time() - t0 > timeout:
-                for p, _, _ in self.running:
-                    p.kill()
+                for r in self.running:
+                    r[0].kill()
                 raise RuntimeError("reference interpreters timed out")
             time.sleep(0.2)
-        refs = {}
+        refs, twin_refs = {}, {}
         self.repeat_diffs = []
         self.ref_failures = []
-        for rc, of, ids, out in self.done:
+        for rc, of, ids, out, twin in self.done:
             if rc != 0 or not os.path.exists(of):
-                self.ref_failures.append(dict(ids=ids, rc=rc, tail=out[-800:]))
+                self.ref_failures.append(dict(ids=ids, rc=rc, twin=twin, tail=out[-800:]))
                 continue
             with np.load(of) as z:
                 for k in z.files:
                     if k == "__repeat_diff__":
                         self.repeat_diffs.append((ids[0], float(z[k])))
                     else:
-                        refs[k] = z[k]
+                        (twin_refs if twin else refs)[k] = z[k]
+        self.twin_diffs = []
+        for k, v in twin_refs.items():
+            if k in refs:
+                self.twin_diffs.append((k, _rel(v, refs[k])))
         self.refs = refs
         self.ref_wall = time.time() - self.t_launch
+        import shutil
+        shutil.rmtree(self.tmp, ignore_errors=True)
         return refs
 
 
@@ -909,11 +921,14 @@ def execute(ctx, plan):
                     try:
                         o, v = ex.apply(op)
                     except Exception as e:  # noqa
-                        o, v = f"raised:{type(e).__name__}:{str(e)[:120]}", None
+                        o = f"raised:{type(e).__name__}:{str(e)[:120]}"
+                        v = dict(value=("raised", f"{type(e).__name__}: {str(e)[:160]}"), first=True)
                     obs.append(o)
                     vals.append(v)
                 results.append(dict(obs=obs, vals=vals, notes=ex.notes))
                 ctx.log(f"history {len(results)}/{len(plan.histories)} executed ({len(h)} calls, {time.time() - t0:.0f}s)")
+                if getattr(plan, "queue", None):
+                    plan._pump()  # start queued reference interpreters as slots become free
     finally:
         rec.uninstall()
         R.set_fields(api.GLOBAL_PARAMETERS, saved_params)
@@ -976,7 +991,7 @@ def _prepare(ctx, deep=False):
     if deep:
         hs = hs[len(FIXED_HISTORIES):]
     plan = Plan(st["variant"], hs)
-    plan.launch(ctx, max_procs=ctx.pick(4, 8), per_proc=ctx.pick(12, 4))
+    plan.launch(ctx, max_procs=ctx.pick(6, 8), per_proc=ctx.pick(12, 4))
     st["deep_plan" if deep else "plan"] = plan
     return plan
 
@@ -1110,12 +1125,17 @@ def _rel(a, b):
 
 
 def _finding_key(h, i, plan_meta, op):
-    if op[0] in ("wf", "sf"):
-        pref = plan_meta["bops"][op[1]]["pref"]
-        asm = plan_meta["bops"][op[1]]["asm"]
-    else:
-        pref = plan_meta["pots"][op[1]]["pref"]
-        asm = plan_meta["pots"][op[1]]["asm"]
+    try:
+        if op[0] in ("wf", "sf"):
+            pref = plan_meta["bops"][op[1]]["pref"]
+            asm = plan_meta["bops"][op[1]]["asm"]
+        elif op[0] == "ep":
+            pref = plan_meta["pots"][op[1]]["pref"]
+            asm = plan_meta["pots"][op[1]]["asm"]
+        else:
+            return None
+    except (IndexError, KeyError):
+        return None
     if asm == "fmm":
         return "fmm-ignores-explicit-parameters" if pref != "g" else "fmm-cache-key-quadrature-order"
     return None
@@ -1141,6 +1161,15 @@ def oracle(ctx, plan=None):
         if d > TOL:
             res.counterexample("reference-process-history", f"recomputing the first job of a reference interpreter at "
                                f"its end gives a different result (max diff {d:.3e})", job=jid)
+    tw = getattr(plan, "twin_diffs", [])
+    if tw:
+        res.stats["worst_twin_reference_difference"] = float(f"{max(d for _, d in tw):.3e}")
+    for jid, d in tw:
+        res.case(("ref-twin", jid), nontrivial=False)
+        if d > TOL:
+            res.counterexample("reference-process-history", f"two fresh interpreters that compute the same reference "
+                               f"jobs from explicit arguments in opposite order disagree on {jid} by {d:.3e} relative: "
+                               f"the result depends on what the process assembled before", job=jid, error=d)
     worst = {}
     for hi, (h, r, exp, meta, spec) in enumerate(zip(plan.histories, results, plan.expect, plan.meta, plan.spec)):
         for n in r["notes"]:
@@ -1148,10 +1177,12 @@ def oracle(ctx, plan=None):
                                f"history `{line_of(h)}`: a repeated weak_form()/mass_matrix() returned a different "
                                f"object ({n})", history=line_of(h), variant=plan.variant)
         for i, (op, v, e) in enumerate(zip(h, r["vals"], exp)):
-            if v is None or not e:
+            if v is None:
+                continue
+            status, val = v["value"]
+            if not e and status != "raised":
                 continue
             res.case(("oracle", op[0], spec[i]), nontrivial=False)
-            status, val = v["value"]
             if status == "raised":
                 key = _finding_key(h, i, meta, op) or f"raises-{op[0]}"
                 res.counterexample(key, f"history `{line_of(h)}`: step {i} ({' '.join(map(str, op))}) raises {val}; "
@@ -1232,7 +1263,7 @@ def replay(ctx, path):
         st["variant"] = "asfound"
     build_driver()
     plan = Plan(st["variant"], [parse_line(rep["history"])])
-    plan.launch(ctx, max_procs=4, per_proc=12)
+    plan.launch(ctx, max_procs=6, per_proc=12)
     res = oracle(ctx, plan)
     hit = [c for c in res.counterexamples if c["key"] == rep.get("key")]
     if hit:
